@@ -100,3 +100,10 @@ def same_bits(a, b):
     if type(a) is slice:
         return same_bits(a.start, b.start) and same_bits(a.stop, b.stop) and same_bits(a.step, b.step)
     return a == b
+
+
+def truthy(v): return bool(v)
+def val_contains(c, x): return x in c
+def has_attr(o, n): return hasattr(o, n)
+def isvbool(v): return type(v) is bool
+def haskey(d, k): return k in d
